@@ -42,6 +42,7 @@ partial def exprOf (j : Json) : Except String Expr := do
   | "sub" => return .sub (← sub "a") (← sub "b")
   | "mul" => return .mul (← sub "a") (← sub "b")
   | "div" => return .div (← sub "a") (← sub "b")
+  | "mod" => return .mod (← sub "a") (← sub "b")
   | "eq" => return .eq (← sub "a") (← sub "b")
   | "ne" => return .ne (← sub "a") (← sub "b")
   | "lt" => return .lt (← sub "a") (← sub "b")
